@@ -32,6 +32,13 @@ pub enum Forged {
     StreamBeyondConnWindow { bidi: bool },
     /// data after FIN / FIN below data / second FIN elsewhere / RESET with another size, on a fresh stream
     FinalSize { bidi: bool, case: u8 },
+    /// a final size (lone FIN when `reset` is false, RESET_STREAM otherwise) one byte beyond the advertised stream
+    /// window (`conn` false) or beyond the advertised connection window (`conn` true) on a fresh peer-initiated stream
+    FinalSizeBeyondWindow { bidi: bool, reset: bool, conn: bool },
+    /// RESET_STREAM with a final size of half the connection window (+1) on one fresh stream, then a STREAM frame
+    /// ending at half the connection window (+1) on another: each is within its limits, together they exceed the
+    /// connection window (the credit a reset stream consumed must stay charged)
+    ResetThenStream { bidi: bool },
 }
 
 #[derive(Clone, Debug, Serialize, Deserialize)]
@@ -46,7 +53,12 @@ pub fn generate(r: &mut Rng, mode: Mode, _case: &Case) -> Byz {
     let target = if r.one_in(2) { Side::Client } else { Side::Server };
     let bidi = r.one_in(2);
     let forged = if mode == Mode::C11 {
-        if r.one_in(2) { Forged::StreamBeyondStreamWindow { bidi } } else { Forged::StreamBeyondConnWindow { bidi } }
+        match r.below(8) {
+            0 | 1 => Forged::StreamBeyondStreamWindow { bidi },
+            2 | 3 => Forged::StreamBeyondConnWindow { bidi },
+            4 | 5 | 6 => Forged::FinalSizeBeyondWindow { bidi, reset: r.one_in(2), conn: r.one_in(2) },
+            _ => Forged::ResetThenStream { bidi },
+        }
     } else {
         match r.below(7) {
             0 => Forged::StreamBeyondLimit { bidi, over: *r.pick(&[0u64, 1, 5, 1000, 1 << 40]), len: r.below(50) as u16 },
@@ -193,6 +205,77 @@ pub fn apply(b: &Byz, eps: &mut [Ep; 2], case: &Case, accepted: &[Vec<u64>; 2], 
             }
             let res = run(&mut || deliver_stream(ep, sid, conn, 1, false));
             verdict(out, &format!("STREAM [{conn}..{}) on {sid:?}, advertised connection limit {conn}", conn + 1), "connection", &[ErrorKind::FlowControl], "rx-overlimit-not-detected", res);
+        }
+        Forged::FinalSizeBeyondWindow { bidi, reset, conn } => {
+            let d = if *bidi { 0 } else { 1 };
+            let fresh = accepted_count(ep, pr, *bidi);
+            if fresh >= ep.adv_streams[d] {
+                return false;
+            }
+            let sid = StreamId::new(pr, if *bidi { Dir::Bi } else { Dir::Uni }, fresh);
+            let win = ep.advertised_stream_limit(sid, me);
+            let cw = ep.adv_conn;
+            // exactly one of the two limits is exceeded, by one byte
+            let size = if *conn {
+                if win <= cw {
+                    return false;
+                }
+                cw + 1
+            } else {
+                if win >= cw {
+                    return false;
+                }
+                win + 1
+            };
+            let what = format!("{} with final size {size} on {sid:?}, advertised stream limit {win}, connection limit {cw}", if *reset { "RESET_STREAM" } else { "lone FIN" });
+            let res = if *reset {
+                let f = StreamCtlFrame::ResetStream(ResetStreamFrame::new(sid, VarInt::from_u32(1), VarInt::from_u64(size).unwrap()));
+                run(&mut || deliver_ctl(ep, f))
+            } else {
+                run(&mut || deliver_stream(ep, sid, size, 0, true))
+            };
+            let site = format!("{}:{}", if *conn { "connection" } else if *bidi { "bidi-remote" } else { "uni" }, if *reset { "reset-final-size" } else { "fin-final-size" });
+            verdict(out, &what, &site, &[ErrorKind::FlowControl], "rx-overlimit-not-detected", res);
+        }
+        Forged::ResetThenStream { bidi } => {
+            let d = if *bidi { 0 } else { 1 };
+            let fresh = accepted_count(ep, pr, *bidi);
+            if fresh + 2 >= ep.adv_streams[d] {
+                return false;
+            }
+            let dir = if *bidi { Dir::Bi } else { Dir::Uni };
+            let (a, b2) = (StreamId::new(pr, dir, fresh), StreamId::new(pr, dir, fresh + 2));
+            let cw = ep.adv_conn;
+            let half = cw / 2 + 1;
+            if cw < 4 || ep.advertised_stream_limit(a, me) < half || ep.advertised_stream_limit(b2, me) < half {
+                return false;
+            }
+            let f = StreamCtlFrame::ResetStream(ResetStreamFrame::new(a, VarInt::from_u32(1), VarInt::from_u64(half).unwrap()));
+            match run(&mut || deliver_ctl(ep, f)) {
+                Ok(Ok(())) => {}
+                Ok(Err(e)) => {
+                    // other streams may already have used the difference: the reset itself may then legitimately be the
+                    // frame that exceeds the connection window
+                    if e.kind() != ErrorKind::FlowControl {
+                        out.violate("error-kind", "connection:reset-then-stream".to_string(), format!("RESET_STREAM final size {half} on {a:?} (connection limit {cw}) answered with {:?}", e.kind()), step as u64);
+                    }
+                    return true;
+                }
+                Err(rec) => {
+                    out.violate("no-panic", rec.site(), format!("RESET_STREAM final size {half}: {} at {}", rec.message, rec.location), step as u64);
+                    return true;
+                }
+            }
+            // handling the reset may itself have raised the connection window (the receiver extends it as credit is
+            // used up): judge the second frame against what is advertised now
+            ep.flush_advertisements(out, case, step);
+            let cw2 = ep.adv_conn;
+            let end = cw2 - half + 1;
+            if ep.advertised_stream_limit(b2, me) < end {
+                return true;
+            }
+            let res = run(&mut || deliver_stream(ep, b2, end - 1, 1, false));
+            verdict(out, &format!("RESET_STREAM with final size {half} on {a:?}, then STREAM [{}..{end}) on {b2:?}: {} bytes of credit used, advertised connection limit {cw2}", end - 1, half + end), "connection:reset-then-stream", &[ErrorKind::FlowControl], "rx-overlimit-not-detected", res);
         }
         Forged::FinalSize { bidi, case: k } => {
             let d = if *bidi { 0 } else { 1 };
